@@ -333,7 +333,7 @@ type clntClient struct {
 	net      *modbus.Client
 	ser      *modbus.SerialClient
 	timeout  time.Duration
-	dialFail bool
+	dialFail int // 0 the dial succeeds, 1 it returns (nil, err), 2 it returns a typed nil pointer with err
 	hung     bool
 	lastResp packet.Response // the response object of the last call, if it returned one
 }
@@ -381,8 +381,12 @@ func clntNewClient(kind int, port, flusher, hooks bool, timeout time.Duration, c
 		WriteTimeout: time.Hour,
 		ReadTimeout:  timeout,
 		DialContextFunc: func(context.Context, string) (net.Conn, error) {
-			if cc.dialFail {
+			switch cc.dialFail {
+			case 1:
 				return nil, clntErrDial
+			case 2:
+				// what `return tls.Dial(...)` does on failure: a nil *tls.Conn inside a non-nil net.Conn
+				return (*clntPtrConn)(nil), clntErrDial
 			}
 			cc.tr.closed = false
 			return clntConn{cc.tr}, nil
@@ -448,38 +452,60 @@ func (cc *clntClient) watch(f func()) bool {
 	}
 }
 
-// connect / close: [0] returned nil, [1] returned an error, [98] did not return
-func (cc *clntClient) connect(fail bool) V {
+// clntPtrConn is a net.Conn implemented on a pointer type, like *tls.Conn or *net.TCPConn: every
+// method of a nil *clntPtrConn dereferences the nil receiver
+type clntPtrConn struct{ inner clntConn }
+
+func (c *clntPtrConn) Read(p []byte) (int, error)         { return c.inner.Read(p) }
+func (c *clntPtrConn) Write(p []byte) (int, error)        { return c.inner.Write(p) }
+func (c *clntPtrConn) Close() error                       { return c.inner.Close() }
+func (c *clntPtrConn) LocalAddr() net.Addr                { return c.inner.LocalAddr() }
+func (c *clntPtrConn) RemoteAddr() net.Addr               { return c.inner.RemoteAddr() }
+func (c *clntPtrConn) SetDeadline(t time.Time) error      { return c.inner.SetDeadline(t) }
+func (c *clntPtrConn) SetReadDeadline(t time.Time) error  { return c.inner.SetReadDeadline(t) }
+func (c *clntPtrConn) SetWriteDeadline(t time.Time) error { return c.inner.SetWriteDeadline(t) }
+
+// connect / close: [0] returned nil, [1] returned an error, [2] panicked, [98] did not return
+func (cc *clntClient) connect(fail int) V {
 	if cc.net == nil {
 		return L(I(0)) // the serial client has no Connect
 	}
 	cc.dialFail = fail
-	var err error
-	if !cc.watch(func() { err = cc.net.Connect(context.Background(), "scripted") }) {
-		return L(I(98))
-	}
-	if err != nil {
-		return L(I(1))
-	}
-	return L(I(0))
-}
-
-func (cc *clntClient) close() V {
-	var err error
+	var res V
 	ok := cc.watch(func() {
-		if cc.net != nil {
-			err = cc.net.Close()
-		} else {
-			err = cc.ser.Close()
-		}
+		res = guard(func() V {
+			if err := cc.net.Connect(context.Background(), "scripted"); err != nil {
+				return L(I(1))
+			}
+			return L(I(0))
+		})
 	})
 	if !ok {
 		return L(I(98))
 	}
-	if err != nil {
-		return L(I(1))
+	return res
+}
+
+func (cc *clntClient) close() V {
+	var res V
+	ok := cc.watch(func() {
+		res = guard(func() V {
+			var err error
+			if cc.net != nil {
+				err = cc.net.Close()
+			} else {
+				err = cc.ser.Close()
+			}
+			if err != nil {
+				return L(I(1))
+			}
+			return L(I(0))
+		})
+	})
+	if !ok {
+		return L(I(98))
 	}
-	return L(I(0))
+	return res
 }
 
 // do performs one call with the given script; returns [result, trace] and whether the timing
@@ -648,7 +674,7 @@ func clntRunBlind(c *clntCase) []V {
 
 type clntOp struct {
 	what int // 0 Connect, 1 Close, 2 Do
-	fail bool
+	fail int // Connect: 0 the dial succeeds, 1 fails with (nil, err), 2 fails with (typed nil, err)
 	rq   *clntRq
 	sc   clntScript
 	want V
@@ -657,7 +683,7 @@ type clntOp struct {
 func (o clntOp) val() V {
 	switch o.what {
 	case 0:
-		return L(I(0), Bool(o.fail))
+		return L(I(0), I(o.fail))
 	case 1:
 		return L(I(1))
 	}
